@@ -12,7 +12,7 @@ ASSUMPTIONS = ["when only the order of the dimensions differs between inputs bot
                "label order of aligned axes compared only where C06 fixes it"]
 
 FLOORS = {"op=stack": (300, 300), "op=concatenate": (300, 300), "align=True": (300, 300), "sort=True": (100, 100), "expect=ValueError": (100, 100),
-          "dims-order-differs": (200, 200), "square": (50, 50), "n=1": (10, 10), "n=3": (100, 100), "rel=permuted": (50, 50), "rel=disjoint": (50, 50)}
+          "dims-order-differs": (200, 200), "square": (50, 50), "n=1": (10, 10), "n=3": (100, 100), "3d": (50, 50), "rel=permuted": (50, 50), "rel=disjoint": (50, 50)}
 
 
 def tlc_jobs(tier, seed):
@@ -48,6 +48,8 @@ def classify(scn):
            "expect=" + ("ok" if scn["out"]["ok"] else scn["out"]["err"])]
     if any(a["dims"] != i["arrs"][0]["dims"] for a in i["arrs"]):
         out.append("dims-order-differs")
+    if len(i["arrs"][0]["dims"]) == 3:
+        out.append("3d")
     if any(len(a["labs"]) == 2 and len(a["labs"][0]) == len(a["labs"][1]) for a in i["arrs"]):
         out.append("square")
     for r in _rel(i).split("+"):
@@ -70,7 +72,7 @@ def replay(scn):
     if i["op"] == "stack":
         forms = [("list", "i"), ("tuple", "s"), ("dict", "i"), ("dict", "s"), ("list", "default")]
     else:
-        forms = [("list", "name"), ("tuple", "pos")]
+        forms = [("list", "name"), ("tuple", "pos"), ("list", "negpos")]
     for lk in ("i", "s"):
         codec = A.LabelCodec()
         for cont, kk in forms:
@@ -92,6 +94,8 @@ def replay(scn):
                         res = A.da.stack(seq, axis=i["newdim"], keys=keys, **kw) if keys is not None else A.da.stack(seq, axis=i["newdim"], **kw)
                 else:
                     ax = i["d"] if kk == "name" else i["arrs"][0]["dims"].index(i["d"])
+                    if kk == "negpos":
+                        ax -= len(i["arrs"][0]["dims"])
                     res = A.da.concatenate(objs if cont == "list" else tuple(objs), axis=ax, **kw)
             except Exception as e:  # noqa
                 err = e
@@ -104,7 +108,8 @@ def replay(scn):
                 elif not isinstance(err, ValueError):
                     what = "expected ValueError, got %s: %s" % (type(err).__name__, str(err)[:200])
             elif err is not None:
-                if not (exp["mayrefuse"] and isinstance(err, ValueError)):
+                # a negative position may be refused (ValueError) - but never joined at the wrong place
+                if not ((exp["mayrefuse"] or kk == "negpos") and isinstance(err, ValueError)):
                     what = "expected a result, got %s: %s" % (type(err).__name__, str(err)[:200])
             else:
                 try:
